@@ -1,41 +1,317 @@
-"""Native replay of verifier counterexamples against the real code (filled in below)."""
-import os, json, time
+"""Native replay of verifier counterexamples against the real code.
+
+On a failing function-level obligation the engine re-runs the unit with -DVC_REPLAY_SNAPSHOT (entry snapshot of the call's
+arguments, see vc_prelude.h), extracts the input from the counterexample trace, builds the real library from the repository
+under check in the unit's configuration with gcc -fsanitize=address,undefined, calls the real function on that input and
+judges the result with an oracle written from the property statement in Python integers (proofs/oracles.py), independent of
+the contracts.  Reproduced = sanitizer report, crash/hang, or oracle rejection.
+"""
+import os, sys, json, re, subprocess, shutil, tempfile, time
 
 VERIF = os.path.dirname(os.path.dirname(os.path.abspath(__file__)))
+sys.path.insert(0, os.path.join(VERIF, 'proofs'))
 
 
 def entry_header(u):
-    return '/* no entry snapshot */\n'
+    return '/* unused */\n'
+
+
+def leaf_int(v):
+    if 'binary' in v:
+        b = v['binary']
+        x = int(b, 2)
+        t = v.get('type', '')
+        if (t.startswith('signed') or t in ('int', 'long', 'short', 'char')) and b[0] == '1':
+            x -= 1 << len(b)
+        return x
+    d = str(v.get('data', '0'))
+    m = re.match(r'-?\d+', d)
+    return int(m.group(0)) if m else 0
+
+
+def extract_snapshot(trace):
+    """values of the leaves of vc_snap written by the entry snapshot of the call under contract: the assignments between the
+    harness' `vc_snap.taken = 0` and the snapshot's own `vc_snap.taken = 1` (later havocs by replaced callees are ignored)"""
+    snap = {}
+    armed = False
+    for s in trace or []:
+        if s.get('stepType') != 'assignment':
+            continue
+        lhs = str(s.get('lhs', ''))
+        if not lhs.startswith('vc_snap.'):
+            continue
+        v = s.get('value', {})
+        if 'members' in v or 'elements' in v:
+            continue
+        key = re.sub(r'\[(\d+)l?\]', r'[\1]', lhs[len('vc_snap.'):])
+        val = v.get('data', '') if v.get('name') == 'pointer' else leaf_int(v)
+        fn = s.get('sourceLocation', {}).get('function') or ''
+        if key == 'taken' and val == 0 and fn.startswith('h_'):
+            armed, snap = True, {}
+            continue
+        if not armed:
+            continue
+        snap[key] = val
+        if key == 'taken' and val == 1:
+            break
+    return snap
+
+
+def snapshot_to_input(snap, sig, bn_size, dig_bits):
+    import sigs as S
+    inp = dict(args=[], code=snap.get('code', 0), handler=snap.get('handler', 0))
+    nb = nd = ns = ny = 0
+    ptrs = [a[1] for a in sig['args'] if a[0] in ('bn', 'dv')]
+    ident = {n: n for n in ptrs}      # alias classes from the recorded pairwise pointer comparisons
+    k = 0
+    for i in range(len(ptrs)):
+        for j in range(i + 1, len(ptrs)):
+            if snap.get('alias[%d]' % k):
+                ident[ptrs[j]] = ident[ptrs[i]]
+            k += 1
+    for a in sig['args']:
+        k = a[0]
+        if k == 'bn':
+            d = dict(kind='bn', name=a[1], alloc=snap.get('bn[%d].alloc' % nb, 0), used=snap.get('bn[%d].used' % nb, 0),
+                     sign=snap.get('bn[%d].sign' % nb, 0), dp=[snap.get('bn[%d].dp[%d]' % (nb, i), 0) for i in range(bn_size)],
+                     ptr=ident[a[1]])
+            inp['args'].append(d)
+            nb += 1
+        elif k == 'dv':
+            n = snap.get('dvlen[%d]' % nd, 0)
+            d = dict(kind='dv', name=a[1], len=n, cty=a[3], vals=[snap.get('dv[%d][%d]' % (nd, i), 0) for i in range(min(n, 80))],
+                     ptr=ident[a[1]])
+            inp['args'].append(d)
+            nd += 1
+        elif k == 'sc':
+            inp['args'].append(dict(kind='sc', name=a[1], cty=a[2], val=snap.get('sc[%d]' % ns, 0)))
+            ns += 1
+        elif k == 'by':
+            n = snap.get('bylen[%d]' % ny, 0)
+            inp['args'].append(dict(kind='by', name=a[1], len=n, cty=a[3], vals=[snap.get('by[%d][%d]' % (ny, i), 0) for i in range(min(n, 160))]))
+            ny += 1
+        elif k == 'po':
+            inp['args'].append(dict(kind='po', name=a[1], cty=a[2]))
+    return inp
+
+
+def driver_source(sig, inp, include_src):
+    """C program calling the real function on the snapshot input and printing the post-state as JSON."""
+    L = ['#include <stdio.h>', '#include <stdlib.h>', '#include <string.h>']
+    L += ['#include "%s"' % h for h in sig['headers']]
+    if include_src:
+        L.append('#include "%s"' % include_src)
+    L += ['static void pr_bn(const char *n, const bn_st *a) { printf("\\"%s\\": {\\"used\\": %zu, \\"sign\\": %d, \\"alloc\\": %zu, \\"dp\\": [", n, a->used, a->sign, a->alloc);',
+          '  for (size_t i = 0; i < a->used && i < RLC_BN_SIZE; i++) printf("%s%llu", i ? "," : "", (unsigned long long)a->dp[i]); printf("]},\\n"); }',
+          'static void pr_dv(const char *n, const dig_t *a, size_t l) { printf("\\"%s\\": [", n); for (size_t i = 0; i < l; i++) printf("%s%llu", i ? "," : "", (unsigned long long)a[i]); printf("],\\n"); }',
+          'int main(void) {', '  if (core_init() != RLC_OK) { printf("{\\"init\\": \\"failed\\"}\\n"); return 2; }']
+    objs = {}   # pointer identity -> C variable of first object
+    call = []
+    post = []
+    for a in inp['args']:
+        k, n = a['kind'], a['name']
+        if k == 'bn':
+            if a['ptr'] in objs:
+                L.append('  bn_st *%s = %s;  /* aliased */' % (n, objs[a['ptr']]))
+            else:
+                objs[a['ptr']] = n
+                L.append('  bn_st *%s = malloc(sizeof(bn_st));' % n)
+                L.append('  %s->alloc = %d; %s->used = %d; %s->sign = %d;' % (n, a['alloc'], n, a['used'], n, a['sign']))
+                L.append('  { static const unsigned long long v[] = {%s}; for (size_t i = 0; i < RLC_BN_SIZE && i < sizeof(v)/sizeof(v[0]); i++) %s->dp[i] = (dig_t)v[i]; }'
+                         % (','.join('%dULL' % x for x in a['dp']) or '0', n))
+            call.append(n)
+            post.append('  pr_bn("%s", %s);' % (n, n))
+        elif k == 'dv':
+            ln = max(a['len'], 0)
+            if a['ptr'] in objs:
+                L.append('  dig_t *%s_ = %s_;  /* aliased */' % (n, objs[a['ptr']]))
+            else:
+                objs[a['ptr']] = n
+                L.append('  dig_t *%s_ = malloc(%d * sizeof(dig_t) + (%d == 0));' % (n, ln, ln))
+                L.append('  { static const unsigned long long v[] = {%s}; for (size_t i = 0; i < %d; i++) %s_[i] = (dig_t)v[i]; }'
+                         % (','.join('%dULL' % x for x in a['vals']) or '0', min(ln, len(a['vals'])), n))
+            call.append('%s_' % n)
+            post.append('  pr_dv("%s", %s_, %d);' % (n, n, ln))
+        elif k == 'sc':
+            L.append('  %s %s = (%s)%dULL;' % (a['cty'], n, a['cty'], a['val'] & 0xFFFFFFFFFFFFFFFF))
+            call.append(n)
+        elif k == 'by':
+            ln = max(a['len'], 0)
+            L.append('  unsigned char *%s_ = malloc(%d + (%d == 0));' % (n, ln, ln))
+            L.append('  { static const unsigned char v[] = {%s}; memcpy(%s_, v, %d); }' % (','.join(str(x) for x in a['vals']) or '0', n, min(ln, len(a['vals']))))
+            call.append('(%s)%s_' % (a['cty'], n))
+            post.append('  printf("\\"%s\\": ["); for (size_t i = 0; i < %d; i++) printf("%%s%%u", i ? "," : "", %s_[i]); printf("],\\n");' % (n, ln, n))
+        elif k == 'po':
+            L.append('  %s %s_v = 0;' % (a['cty'], n))
+            call.append('&%s_v' % n)
+            post.append('  printf("\\"%s\\": %%llu,\\n", (unsigned long long)%s_v);' % (n, n))
+    L.append('  core_get()->code = %s;' % ('RLC_ERR' if inp.get('code') else 'RLC_OK'))
+    c = '%s(%s)' % (sig['fn'], ', '.join(call))
+    L.append('  int caught = 0; (void)caught;')
+    if sig['ret']:
+        L.append('  %s ret = 0;' % sig['ret'])
+        c = 'ret = ' + c
+    if inp.get('handler'):
+        L.append('  RLC_TRY { %s; } RLC_CATCH_ANY { caught = 1; }' % c)
+    else:
+        L.append('  %s;' % c)
+    L.append('  printf("{\\n");')
+    L += post
+    if sig['ret']:
+        L.append('  printf("\\"ret\\": %lld,\\n", (long long)ret);')
+    L.append('  printf("\\"caught\\": %d, \\"code\\": %d, \\"RLC_ERR\\": %d, \\"dig_bits\\": %d, \\"bn_size\\": %d}\\n", caught, core_get()->code, RLC_ERR, (int)RLC_DIG, (int)RLC_BN_SIZE);')
+    L.append('  return 0;')
+    L.append('}')
+    return '\n'.join(L) + '\n'
+
+
+_libs = {}
+
+
+def native_lib(conf, repo, scratch):
+    """Build the real library of `repo` in configuration conf with ASan/UBSan; returns (include_dir, libfile) or raises."""
+    import engine as E
+    key = (conf, repo)
+    if key in _libs:
+        return _libs[key]
+    bd = os.path.join(scratch, 'native-' + conf)
+    shutil.rmtree(bd, ignore_errors=True)
+    flags = '-fsanitize=address,undefined -fno-sanitize-recover=undefined -fno-omit-frame-pointer -g -O1'
+    r = E.sh(['cmake', '-S', repo, '-B', bd, '-G', 'Ninja', '-DDOCUM=off', '-DTESTS=0', '-DBENCH=0', '-DSHLIB=off',
+              '-DCMAKE_BUILD_TYPE=Debug', '-DCMAKE_C_FLAGS=' + flags] + E.CONFS[conf])
+    if r.returncode == 0:
+        r = E.sh(['cmake', '--build', bd, '-j', '16'])
+    lib = os.path.join(bd, 'lib', 'librelic_s.a')
+    if r.returncode != 0 or not os.path.exists(lib):
+        raise RuntimeError('native library build failed: ' + r.stdout[-1500:])
+    _libs[key] = (os.path.join(bd, 'include'), lib)
+    return _libs[key]
+
+
+def run_native(src_text, conf, repo, scratch, tag):
+    inc, lib = native_lib(conf, repo, scratch)
+    d = os.path.join(scratch, 'replay-' + tag)
+    os.makedirs(d, exist_ok=True)
+    c = os.path.join(d, 'driver.c')
+    open(c, 'w').write(src_text)
+    exe = os.path.join(d, 'driver')
+    import engine as E
+    r = E.sh(['gcc', '-fsanitize=address,undefined', '-fno-sanitize-recover=undefined', '-g', '-O1', '-w', '-I' + inc,
+              '-I' + os.path.join(repo, 'include'), '-I' + os.path.join(repo, 'include', 'low'), '-I' + repo, c, '-o', exe,
+              '-Wl,--allow-multiple-definition', lib])
+    if r.returncode != 0:
+        return dict(status='build-failed', log=r.stdout[-2000:])
+    try:
+        p = subprocess.run([exe], stdout=subprocess.PIPE, stderr=subprocess.PIPE, text=True, timeout=20,
+                           env=dict(os.environ, ASAN_OPTIONS='detect_leaks=0:abort_on_error=0', UBSAN_OPTIONS='print_stacktrace=1'))
+    except subprocess.TimeoutExpired:
+        return dict(status='hang', log='native call did not return within 20 s')
+    out = dict(rc=p.returncode, stderr=p.stderr[-3000:], stdout=p.stdout[-6000:])
+    if 'AddressSanitizer' in p.stderr or 'runtime error' in p.stderr:
+        out['status'] = 'sanitizer'
+    elif p.returncode < 0 or p.returncode > 2:
+        out['status'] = 'crash'
+    else:
+        out['status'] = 'ran'
+        try:
+            m = re.search(r'\{.*\}', p.stdout, re.S)
+            out['post'] = json.loads(re.sub(r',\s*\}', '}', m.group(0)))
+        except Exception as e:
+            out['status'] = 'unparsable'
+    return out
 
 
 def make_replay(prop, unit, failed, result):
+    """Returns (replay_path, reproduced)."""
+    import engine as E, sigs as S, oracles as O
     d = os.path.join(VERIF, 'replay', prop)
     os.makedirs(d, exist_ok=True)
     n = 0
-    while os.path.exists(os.path.join(d, '%s-%d.json' % (unit.name, n))):
+    base = re.sub(r'[^\w.@-]', '_', unit.name)
+    while os.path.exists(os.path.join(d, '%s-%d.json' % (base, n))):
         n += 1
-    p = os.path.join(d, '%s-%d.json' % (unit.name, n))
-    rec = dict(property=prop, unit=unit.name, function=unit.func, reproduced=False,
-               failed_obligations=[{k: v for k, v in f.items() if k != 'trace'} for f in failed],
-               verifier_output=[dict(obligation=f['obligation'], trace_tail=trace_tail(f.get('trace'))) for f in failed[:3]])
-    json.dump(rec, open(p, 'w'), indent=1)
-    return p, False
+    path = os.path.join(d, '%s-%d.json' % (base, n))
+    rec = dict(property=prop, unit=unit.name, function=unit.replay_func, conf=unit.conf, repo=E.REPO, reproduced=False,
+               failed_obligations=[{k: v for k, v in f.items() if k != 'trace'} for f in failed[:12]],
+               verifier_output=[dict(obligation=f['obligation'], text=f['text'], trace_tail=trace_tail(f.get('trace'))) for f in failed[:2]])
+    sig = S.SIGS.get(unit.replay_func)
+    try:
+        if sig is None:
+            rec['replay'] = 'no replay signature registered for %s' % unit.replay_func
+        else:
+            sr = E.run_unit(unit, 'quick', snapshot=True)
+            want = set(f['obligation'] for f in failed)
+            cands = [f for f in sr.get('failed', []) if f['obligation'] in want and f.get('trace')] or \
+                    [f for f in sr.get('failed', []) if f['cls'] in E.FUNCTION_LEVEL and f.get('trace')]
+            verdicts = []
+            for f in cands[:4]:
+                snap = extract_snapshot(f['trace'])
+                if not snap.get('taken'):
+                    verdicts.append(dict(obligation=f['obligation'], note='counterexample does not reach the function entry'))
+                    continue
+                inp = snapshot_to_input(snap, sig, E.BN_SIZE[unit.conf], 0)
+                src = driver_source(sig, inp, os.path.join(E.REPO, unit.sources[0]) if unit.sources else None)
+                nat = run_native(src, unit.conf, E.REPO, E.scratch_root(), '%s-%d' % (base, len(verdicts)))
+                v = dict(obligation=f['obligation'], input=inp, native=nat)
+                if nat['status'] in ('sanitizer', 'crash', 'hang'):
+                    v['reproduced'] = True
+                    v['why'] = 'native run of the real function on the counterexample input: ' + nat['status']
+                elif nat['status'] == 'ran':
+                    ok, why = O.judge(sig['oracle'], inp, nat['post'])
+                    v['reproduced'] = (ok is False)
+                    v['why'] = why
+                else:
+                    v['reproduced'] = False
+                    v['why'] = 'native replay ' + nat['status']
+                v['driver_c'] = src
+                verdicts.append(v)
+                if v['reproduced']:
+                    break
+            rec['replays'] = verdicts
+            rec['reproduced'] = any(v.get('reproduced') for v in verdicts)
+    except Exception as e:
+        rec['replay'] = 'replay machinery failed: %r' % e
+    json.dump(rec, open(path, 'w'), indent=1)
+    return path, rec['reproduced']
 
 
-def trace_tail(tr, n=60):
+def trace_tail(tr, n=40):
     if not tr:
         return []
     out = []
     for s in tr:
-        if s.get('stepType') == 'assignment' and not s.get('hidden') and s.get('lhs'):
+        if s.get('stepType') == 'assignment' and not s.get('hidden') and s.get('lhs') and not str(s['lhs']).startswith('vc_snap'):
             v = s.get('value', {})
             out.append('%s = %s (%s:%s)' % (s['lhs'], v.get('data', v.get('name')), s.get('sourceLocation', {}).get('function'), s.get('sourceLocation', {}).get('line')))
     return out[-n:]
 
 
 def run_replay_file(path):
+    """bin/check --replay <file>: re-executes the recorded native replays against /repo's current tree.  exit 1 = still fails."""
+    import engine as E, oracles as O, sigs as S
     rec = json.load(open(path))
-    print(json.dumps({k: rec[k] for k in ('property', 'unit', 'function', 'reproduced')}, indent=1))
-    for f in rec['failed_obligations']:
-        print('failed obligation:', f['obligation'], f['text'])
-    return 1
+    print('property %s unit %s function %s' % (rec['property'], rec['unit'], rec['function']))
+    for f in rec['failed_obligations'][:6]:
+        print('  failed obligation %s: %s' % (f['obligation'], f['text'][:160]))
+    still = False
+    for v in rec.get('replays', []):
+        if 'driver_c' not in v:
+            continue
+        nat = run_native(v['driver_c'].replace(rec.get('repo', '/repo'), E.REPO), rec['conf'], E.REPO, E.scratch_root(), 'replay')
+        if nat['status'] in ('sanitizer', 'crash', 'hang'):
+            print('  native: %s\n%s' % (nat['status'], nat.get('stderr', '')[:1500]))
+            still = True
+        elif nat['status'] == 'ran':
+            ok, why = O.judge(S.SIGS[rec['function']]['oracle'], v['input'], nat['post'])
+            print('  native: input %s' % json.dumps(v['input'])[:600])
+            print('  native: post  %s' % json.dumps(nat['post'])[:600])
+            print('  oracle: %s' % why)
+            still = still or (ok is False)
+        else:
+            print('  native replay: %s %s' % (nat['status'], nat.get('log', '')[:500]))
+    if not rec.get('replays'):
+        print('  no native replay recorded (%s); verifier output:' % rec.get('replay', 'no failing input found'))
+        for o in rec.get('verifier_output', []):
+            print('   ', o['obligation'], *o.get('trace_tail', [])[-12:], sep='\n      ')
+    print('REPLAY %s' % ('reproduced: the real code violates the property on this input' if still else 'not reproduced on the current tree'))
+    return 1 if still else 0
